@@ -40,10 +40,12 @@ def main():
     assert rc == 0, out
     try:
         dname = "seed_demo_" + name
-        shutil.copy(demo, os.path.join(scratch, "tests", dname + ".rs")) if os.path.isdir(os.path.join(scratch, "tests")) else None
-        if not os.path.isdir(os.path.join(scratch, "tests")):
-            os.makedirs(os.path.join(scratch, "tests")); shutil.copy(demo, os.path.join(scratch, "tests", dname + ".rs"))
-        cmd_demo = "cargo test --offline --test %s 2>&1 | tail -25" % dname
+        # SEED_DEMO_DIR / SEED_PKG: demos for the static-metric crate live in static-metric/tests and run with -p
+        ddir = os.path.join(scratch, os.environ.get("SEED_DEMO_DIR", "tests"))
+        os.makedirs(ddir, exist_ok=True)
+        shutil.copy(demo, os.path.join(ddir, dname + ".rs"))
+        pkg = os.environ.get("SEED_PKG")
+        cmd_demo = "cargo test --offline %s--test %s 2>&1 | tail -25" % (("-p %s " % pkg) if pkg else "", dname)
         rc, out = sh(cmd_demo, cwd=scratch)
         ok, failed = test_summary(out)
         meta["demo_without_change"] = dict(passed=ok, failed=failed, ok=(ok > 0 and failed == 0 and "error" not in out.split("test result")[0][-300:]))
@@ -55,12 +57,14 @@ def main():
         ok, failed = test_summary(out)
         meta["demo_with_change"] = dict(passed=ok, failed=failed, fails=(failed > 0 or "panicked" in out or "error[" in out), tail=out[-600:])
         meta["ran"].append("with the change: " + cmd_demo + " -> %d passed, %d failed" % (ok, failed))
-        os.remove(os.path.join(scratch, "tests", dname + ".rs"))
-        cmd_suite = "cargo test --workspace --no-fail-fast --offline 2>&1 | grep -E 'test result|FAILED|failed|error' | head -40"
+        os.remove(os.path.join(ddir, dname + ".rs"))
+        # the repository's baseline command (BASELINE.json): nextest, one process per test
+        cmd_suite = "cargo nextest run --workspace --no-fail-fast --offline --test-threads 8 2>&1 | tail -15"
         rc, out = sh(cmd_suite, cwd=scratch)
-        ok, failed = test_summary(out)
-        meta["suite_with_change"] = dict(passed=ok, failed=failed, ok=(failed == 0 and ok >= 96 and "error: could not compile" not in out))
-        meta["ran"].append("with the change: cargo test --workspace --no-fail-fast --offline -> %d passed, %d failed" % (ok, failed))
+        m = re.search(r"(\d+) tests? run: (\d+) passed(?:[^\n]*?(\d+) failed)?", out)
+        ok, failed = (int(m.group(2)), int(m.group(3) or 0)) if m else (0, -1)
+        meta["suite_with_change"] = dict(passed=ok, failed=failed, ok=(failed == 0 and ok >= 96))
+        meta["ran"].append("with the change: cargo nextest run --workspace --no-fail-fast --offline --test-threads 8 -> %d passed, %d failed" % (ok, failed))
         shutil.rmtree(os.path.join(scratch, "target"), ignore_errors=True)
         meta["checks"] = {}
         for p in props:
